@@ -234,7 +234,7 @@ Section Props.
   Proof.
     intro HK. induction fuel as [|fuel IH]; intros j Hj Hf; [lia|].
     cbn [walk_by_key]. rewrite key_page_forward by assumption.
-    cbn [fwd_page pg_next].
+    unfold fwd_page. cbn [pg_next].
     destruct (K <? N.of_nat (length l - j))%N eqn:E.
     - apply N.ltb_lt in E.
       destruct (IH (j + N.to_nat K)) as (pages & Hw & Hitems & Hlen & Hwf); [lia | lia |].
@@ -245,8 +245,9 @@ Section Props.
         rewrite <- (skipn_skipn (N.to_nat K) j). apply firstn_skipn.
       + cbn [length]. rewrite Hlen. rewrite (page_count_more (length l - j)) by lia.
         do 2 f_equal. lia.
-      + apply well_formed_walk_cons; [cbn [pg_next]; discriminate | | exact Hwf].
-        cbn [pg_items]. rewrite firstn_length, skipn_length. lia.
+      + apply well_formed_walk_cons; [ | | exact Hwf].
+        * cbn [pg_next]. destruct (j + N.to_nat K) eqn:Ej; [lia | discriminate].
+        * cbn [pg_items]. rewrite firstn_length, skipn_length. lia.
     - apply N.ltb_ge in E. eexists. split; [reflexivity|]. repeat split.
       + unfold all_items. cbn. rewrite app_nil_r. apply firstn_all2. rewrite skipn_length. lia.
       + cbn [length]. rewrite page_count_last by lia. reflexivity.
@@ -286,7 +287,7 @@ Section Props.
     replace (N.of_nat i * K)%N with (N.of_nat (i * N.to_nat K)) by lia.
     set (j := i * N.to_nat K) in *.
     rewrite offset_page_forward by assumption.
-    cbn [fwd_page pg_next].
+    unfold fwd_page. cbn [pg_next].
     destruct (K <? N.of_nat (length l - j))%N eqn:E.
     - apply N.ltb_lt in E.
       destruct (IH (S i)) as (pages & Hw & Hitems & Hlen & Hwf & Htot); [cbn; lia | cbn; lia |].
@@ -336,7 +337,7 @@ Section Props.
     source l c true = rev (firstn r (index_from 0 l)).
   Proof.
     intros [[-> ->] | ->]; unfold source; [|reflexivity].
-    rewrite <- (index_from_length l 0) at 2. rewrite firstn_all. reflexivity.
+    rewrite <- (index_from_length l 0). rewrite firstn_all. reflexivity.
   Qed.
 
   Lemma key_page_reverse l (c : option nat) (r : nat) (K : N) (ct : bool) :
@@ -353,7 +354,7 @@ Section Props.
     unfold rev_page. rewrite Hlen.
     assert (Hitems : map snd (firstn (N.to_nat K) (rev (firstn r (index_from 0 l)))) =
                      firstn (N.to_nat K) (rev (firstn r l))).
-    { rewrite firstn_map, map_rev, firstn_index_from, map_snd_index_from. reflexivity. }
+    { rewrite <- firstn_map, map_rev, firstn_index_from, map_snd_index_from. reflexivity. }
     rewrite Hitems.
     destruct (K <? N.of_nat r)%N eqn:E; [|reflexivity].
     apply N.ltb_lt in E.
@@ -379,7 +380,7 @@ Section Props.
   Proof.
     intro HK. induction fuel as [|fuel IH]; intros c r Hr Hf Hc; [lia|].
     cbn [walk_by_key]. rewrite (key_page_reverse l c r K ct HK Hr Hc).
-    cbn [rev_page pg_next].
+    unfold rev_page. cbn [pg_next].
     destruct (K <? N.of_nat r)%N eqn:E.
     - apply N.ltb_lt in E.
       destruct (IH (Some (r - N.to_nat K)) (r - N.to_nat K)) as (pages & Hw & Hitems & Hlen & Hwf);
